@@ -40,3 +40,21 @@ pub fn sync_point(site: &'static str) {
         hook(site)
     }
 }
+
+static ID_HOOK: OnceLock<fn(&'static str) -> Option<String>> = OnceLock::new();
+
+/// Install the process-wide hook that replaces random identifiers (e.g. the
+/// write id in output file names) by simulator-chosen ones. Returns `false` if
+/// one was already installed.
+pub fn set_random_id_hook(hook: fn(&'static str) -> Option<String>) -> bool {
+    ID_HOOK.set(hook).is_ok()
+}
+
+/// Returns the simulator's identifier for `site`, or `random` if no hook is
+/// installed (or the hook declines).
+pub fn random_id(site: &'static str, random: String) -> String {
+    match ID_HOOK.get().and_then(|hook| hook(site)) {
+        Some(id) => id,
+        None => random,
+    }
+}
